@@ -1,7 +1,12 @@
 //! Reference models for the anstyle verification harness.
 //! Nothing in this crate depends on the code under test.
 pub mod color;
+pub mod env;
+pub mod git;
+pub mod ls;
+pub mod roff;
 pub mod sgr;
 pub mod strip;
 pub mod utf8;
 pub mod vt;
+pub mod xml;
